@@ -1,25 +1,385 @@
+//! C02 — sliding-window numeric methods equal their from-scratch definition.
+//! Every entry: symbolic construction value v0, t symbolic inputs, history = enough copies of v0
+//! followed by the inputs; at every step next() and peek() are compared with the definition.
+use crate::reflib::*;
 use crate::rsx;
-use yata::core::{Method, PeriodType, ValueType};
+use yata::core::{Candle, Method, PeriodType, ValueType};
 use yata::helpers::Peekable;
 use yata::methods::*;
 
-pub fn c02_sma() {
+fn params() -> (PeriodType, usize, ValueType) {
 	let n = rsx::param("n") as PeriodType;
 	let t = rsx::param("t") as usize;
+	// scale of the rounding allowance for native replay: (n + t + 8), kappa applied per method
+	let scale = (n as usize + t + 8) as ValueType;
+	(n, t, scale)
+}
+
+fn prehistory(v0: ValueType, copies: usize) -> Vec<ValueType> {
+	vec![v0; copies]
+}
+
+pub fn c02_sma() {
+	let (n, t, scale) = params();
 	let v0 = rsx::val("v0");
 	let mut m = SMA::new(n, &v0).unwrap();
-	let mut hist: Vec<ValueType> = vec![v0; n as usize];
+	let mut hist = prehistory(v0, n as usize);
 	for i in 0..t {
 		let x = rsx::val_i("x", i);
 		hist.push(x);
 		let y = m.next(&x);
-		let w = &hist[hist.len() - n as usize..];
+		let r = r_mean(r_last(&hist, n as usize));
+		rsx::close("sma.next", y, r, scale);
+		rsx::close("sma.peek", m.peek(), r, scale);
+	}
+}
+
+pub fn c02_wma() {
+	let (n, t, scale) = params();
+	let v0 = rsx::val("v0");
+	let mut m = WMA::new(n, &v0).unwrap();
+	let mut hist = prehistory(v0, n as usize);
+	for i in 0..t {
+		let x = rsx::val_i("x", i);
+		hist.push(x);
+		let y = m.next(&x);
+		let r = r_wma(r_last(&hist, n as usize));
+		rsx::close("wma.next", y, r, scale);
+		rsx::close("wma.peek", m.peek(), r, scale);
+	}
+}
+
+pub fn c02_swma() {
+	let (n, t, scale) = params();
+	let v0 = rsx::val("v0");
+	let mut m = SWMA::new(n, &v0).unwrap();
+	let mut hist = prehistory(v0, n as usize);
+	for i in 0..t {
+		let x = rsx::val_i("x", i);
+		hist.push(x);
+		let y = m.next(&x);
+		let r = r_swma(r_last(&hist, n as usize));
+		rsx::close("swma.next", y, r, scale);
+		if n > 1 {
+			rsx::close("swma.peek", m.peek(), r, scale);
+		}
+	}
+}
+
+pub fn c02_trima() {
+	let (n, t, scale) = params();
+	let v0 = rsx::val("v0");
+	let mut m = TRIMA::new(n, &v0).unwrap();
+	let mut hist = prehistory(v0, 2 * n as usize);
+	for i in 0..t {
+		let x = rsx::val_i("x", i);
+		hist.push(x);
+		let y = m.next(&x);
+		let inner = r_sma_series(&hist, n as usize, n as usize);
+		let r = r_mean(&inner);
+		rsx::close("trima.next", y, r, scale);
+		rsx::close("trima.peek", m.peek(), r, scale);
+	}
+}
+
+pub fn c02_hma() {
+	let (n, t, scale) = params();
+	let v0 = rsx::val("v0");
+	let mut m = HMA::new(n, &v0).unwrap();
+	let nn = n as usize;
+	// integer square root, rounded down
+	let mut s = 1;
+	while (s + 1) * (s + 1) <= nn {
+		s += 1;
+	}
+	let mut hist = prehistory(v0, nn + s + 1);
+	for i in 0..t {
+		let x = rsx::val_i("x", i);
+		hist.push(x);
+		let y = m.next(&x);
+		let a = r_wma_series(&hist, nn / 2, s);
+		let b = r_wma_series(&hist, nn, s);
+		let mut d = Vec::new();
+		for k in 0..s {
+			d.push(2.0 * a[k] - b[k]);
+		}
+		let r = r_wma(&d);
+		rsx::close("hma.next", y, r, 4.0 * scale);
+		rsx::close("hma.peek", m.peek(), r, 4.0 * scale);
+	}
+}
+
+pub fn c02_linreg() {
+	let (n, t, scale) = params();
+	let v0 = rsx::val("v0");
+	let mut m = LinReg::new(n, &v0).unwrap();
+	let mut hist = prehistory(v0, n as usize);
+	for i in 0..t {
+		let x = rsx::val_i("x", i);
+		hist.push(x);
+		let y = m.next(&x);
+		let r = r_linreg(r_last(&hist, n as usize));
+		rsx::close("linreg.next", y, r, 4.0 * scale);
+		rsx::close("linreg.peek", m.peek(), r, 4.0 * scale);
+	}
+}
+
+pub fn c02_conv() {
+	let (n, t, scale) = params();
+	let v0 = rsx::val("v0");
+	let mut weights: Vec<ValueType> = Vec::new();
+	let mut wsum = 0.0;
+	for j in 0..(n as usize) {
+		let k = rsx::val_i("k", j);
+		weights.push(k);
+		wsum += k;
+	}
+	// the documented formula divides by the weight sum
+	rsx::assume(wsum > 0.001 || wsum < -0.001);
+	let mut m = Conv::new(weights.clone(), &v0).unwrap();
+	let mut hist = prehistory(v0, n as usize);
+	for i in 0..t {
+		let x = rsx::val_i("x", i);
+		hist.push(x);
+		let y = m.next(&x);
+		let w = r_last(&hist, n as usize);
+		// weights[j] applies to the j-th oldest element (the last weight to the newest value)
+		let mut num = 0.0;
+		for j in 0..(n as usize) {
+			num += weights[j] * w[j];
+		}
+		let r = num / wsum;
+		rsx::close("conv.next", y, r, scale);
+		rsx::close("conv.peek", m.peek(), r, scale);
+	}
+}
+
+pub fn c02_vwma() {
+	let (n, t, scale) = params();
+	let p0 = rsx::val("p0");
+	let q0 = rsx::val("q0");
+	rsx::assume(q0 > 0.001);
+	let mut m = VWMA::new(n, &(p0, q0)).unwrap();
+	let mut hp = prehistory(p0, n as usize);
+	let mut hq = prehistory(q0, n as usize);
+	for i in 0..t {
+		let p = rsx::val_i("p", i);
+		let q = rsx::val_i("q", i);
+		rsx::assume(q >= 0.0);
+		hp.push(p);
+		hq.push(q);
+		let wp = r_last(&hp, n as usize);
+		let wq = r_last(&hq, n as usize);
+		let mut num = 0.0;
+		let mut den = 0.0;
+		for j in 0..(n as usize) {
+			num += wp[j] * wq[j];
+			den += wq[j];
+		}
+		// defined only for non-zero total volume
+		rsx::assume(den > 0.001);
+		let y = m.next(&(p, q));
+		let r = num / den;
+		rsx::close("vwma.next", y, r, scale);
+		rsx::close("vwma.peek", m.peek(), r, scale);
+	}
+}
+
+pub fn c02_integral() {
+	let (n, t, scale) = params();
+	let v0 = rsx::val("v0");
+	let mut m = Integral::new(n, &v0).unwrap();
+	let mut hist = prehistory(v0, n as usize);
+	for i in 0..t {
+		let x = rsx::val_i("x", i);
+		hist.push(x);
+		let y = m.next(&x);
+		let r = r_sum(r_last(&hist, n as usize));
+		rsx::close("integral.next", y, r, (n as ValueType) * scale);
+		rsx::close("integral.peek", m.peek(), r, (n as ValueType) * scale);
+	}
+}
+
+pub fn c02_derivative() {
+	let (n, t, scale) = params();
+	let v0 = rsx::val("v0");
+	let mut m = Derivative::new(n, &v0).unwrap();
+	let mut hist = prehistory(v0, n as usize + 1);
+	for i in 0..t {
+		let x = rsx::val_i("x", i);
+		hist.push(x);
+		let y = m.next(&x);
+		let r = (x - hist[hist.len() - 1 - n as usize]) / (n as ValueType);
+		rsx::close("derivative.next", y, r, 2.0 * scale);
+	}
+}
+
+pub fn c02_momentum() {
+	let (n, t, scale) = params();
+	let v0 = rsx::val("v0");
+	let mut m = Momentum::new(n, &v0).unwrap();
+	let mut hist = prehistory(v0, n as usize + 1);
+	for i in 0..t {
+		let x = rsx::val_i("x", i);
+		hist.push(x);
+		let y = m.next(&x);
+		let r = x - hist[hist.len() - 1 - n as usize];
+		rsx::close("momentum.next", y, r, 2.0 * scale);
+	}
+}
+
+pub fn c02_roc() {
+	let (n, t, scale) = params();
+	let v0 = rsx::val("v0");
+	rsx::assume(v0 > 0.001);
+	let mut m = RateOfChange::new(n, &v0).unwrap();
+	let mut hist = prehistory(v0, n as usize + 1);
+	for i in 0..t {
+		let x = rsx::val_i("x", i);
+		rsx::assume(x > 0.001);
+		hist.push(x);
+		let y = m.next(&x);
+		let old = hist[hist.len() - 1 - n as usize];
+		let r = (x - old) / old;
+		rsx::close("roc.next", y, r, 1024.0 * scale);
+	}
+}
+
+pub fn c02_past() {
+	let (n, t, _scale) = params();
+	let v0 = rsx::val("v0");
+	let mut m = Past::new(n, &v0).unwrap();
+	let mut hist = prehistory(v0, n as usize + 1);
+	for i in 0..t {
+		let x = rsx::val_i("x", i);
+		hist.push(x);
+		let y = m.next(&x);
+		let r = hist[hist.len() - 1 - n as usize];
+		rsx::check("past.next", rsx::bits_eq(y, r));
+	}
+}
+
+pub fn c02_stdev() {
+	let (n, t, scale) = params();
+	let v0 = rsx::val("v0");
+	let mut m = StDev::new(n, &v0).unwrap();
+	let mut hist = prehistory(v0, n as usize);
+	for i in 0..t {
+		let x = rsx::val_i("x", i);
+		hist.push(x);
+		let y = m.next(&x);
+		let w = r_last(&hist, n as usize);
+		let mu = r_mean(w);
+		let mut ss = 0.0;
+		for a in w {
+			ss += (*a - mu) * (*a - mu);
+		}
+		let var = ss / ((n - 1) as ValueType);
+		// sqrt is compared through its argument: y >= 0 and y^2 = |var|. The variance of the
+		// definition is a sum of squares, hence |var| = var; writing the absolute value spares the
+		// solver the (non-linear) proof of that sign fact and loses nothing.
+		rsx::check("stdev.nonneg", y >= 0.0);
+		rsx::close("stdev.next^2", y * y, r_abs(var), 4096.0 * scale);
+		let p = m.peek();
+		rsx::close("stdev.peek^2", p * p, r_abs(var), 4096.0 * scale);
+	}
+}
+
+pub fn c02_meanabsdev() {
+	let (n, t, scale) = params();
+	let v0 = rsx::val("v0");
+	let mut m = MeanAbsDev::new(n, &v0).unwrap();
+	let mut hist = prehistory(v0, n as usize);
+	for i in 0..t {
+		let x = rsx::val_i("x", i);
+		hist.push(x);
+		let y = m.next(&x);
+		let w = r_last(&hist, n as usize);
+		let mu = r_mean(w);
 		let mut s = 0.0;
 		for a in w {
-			s += *a;
+			s += r_abs(*a - mu);
 		}
 		let r = s / (n as ValueType);
-		rsx::close("sma.next", y, r, 1.0);
-		rsx::close("sma.peek", m.peek(), r, 1.0);
+		rsx::close("meanabsdev.next", y, r, 2.0 * scale);
+		rsx::close("meanabsdev.peek", m.peek(), r, 2.0 * scale);
+	}
+}
+
+pub fn c02_medianabsdev() {
+	let (n, t, scale) = params();
+	let v0 = rsx::val("v0");
+	let mut m = MedianAbsDev::new(n, &v0).unwrap();
+	let mut hist = prehistory(v0, n as usize);
+	for i in 0..t {
+		let x = rsx::val_i("x", i);
+		hist.push(x);
+		let y = m.next(&x);
+		let w = r_last(&hist, n as usize);
+		let med = r_median(w);
+		let mut s = 0.0;
+		for a in w {
+			s += r_abs(*a - med);
+		}
+		let r = s / (n as ValueType);
+		rsx::close("medianabsdev.next", y, r, 2.0 * scale);
+		rsx::close("medianabsdev.peek", m.peek(), r, 2.0 * scale);
+	}
+}
+
+pub fn c02_cci() {
+	let (n, t, scale) = params();
+	let v0 = rsx::val("v0");
+	let mut m = CCI::new(n, &v0).unwrap();
+	let mut hist = prehistory(v0, n as usize);
+	for i in 0..t {
+		let x = rsx::val_i("x", i);
+		hist.push(x);
+		let w = r_last(&hist, n as usize);
+		let mu = r_mean(w);
+		let mut s = 0.0;
+		for a in w {
+			s += r_abs(*a - mu);
+		}
+		let mad = s / (n as ValueType);
+		// the quotient is exempt where its denominator is within the allowance of zero (DESIGN §4)
+		rsx::assume(mad == 0.0 || mad > 0.001);
+		let y = m.next(&x);
+		let r = if mad > 0.0 { (x - mu) / mad } else { 0.0 };
+		rsx::close("cci.next", y, r, 4096.0 * scale);
+	}
+}
+
+pub fn c02_linvol() {
+	let (n, t, scale) = params();
+	let v0 = rsx::val("v0");
+	let mut m = LinearVolatility::new(n, &v0).unwrap();
+	let mut hist = prehistory(v0, n as usize + 1);
+	for i in 0..t {
+		let x = rsx::val_i("x", i);
+		hist.push(x);
+		let y = m.next(&x);
+		let w = r_last(&hist, n as usize + 1);
+		let mut s = 0.0;
+		for j in 1..w.len() {
+			s += r_abs(w[j] - w[j - 1]);
+		}
+		rsx::close("linvol.next", y, s, (n as ValueType) * scale);
+		rsx::close("linvol.peek", m.peek(), s, (n as ValueType) * scale);
+	}
+}
+
+pub fn c02_adi() {
+	let (n, t, scale) = params();
+	let c0 = valid_candle_i(1000);
+	let mut m = ADI::new(n, &c0).unwrap();
+	let mut hist: Vec<ValueType> = prehistory(r_clv(&c0) * c0.volume, n as usize);
+	for i in 0..t {
+		let c = valid_candle_i(i);
+		hist.push(r_clv(&c) * c.volume);
+		let y = m.next(&c);
+		let r = r_sum(r_last(&hist, n as usize));
+		rsx::close("adi.next", y, r, 1024.0 * (n as ValueType) * scale);
+		rsx::close("adi.peek", m.peek(), r, 1024.0 * (n as ValueType) * scale);
 	}
 }
